@@ -321,4 +321,37 @@ example : ∃ c', pollConn 5
       env := { tr := { exTrEof with wr := [.err] } }, scripts := [] } = (c', .finished) ∧
     hsCount c'.env.tr.events = 0 := ⟨_, rfl, by decide⟩
 
+/-! ## The unrestricted handler-fuel claim is false (`_full` / `_partial`) -/
+
+/-- The unrestricted claim for the handler interpreter: with the fuel `pollConn` passes, the fuel guard
+is never hit, whatever the script. -/
+def handlerPoll_terminates_full : Prop :=
+  ∀ (r : AReq) (h : HState) (e : Env) (r' : AReq) (h' : HState) (e' : Env) (s : String),
+    handlerPoll (handlerFuel e) r h e = (r', h', e', .panic s) → s ∉ fuelMsgs
+
+/-- It is false: the fuel is `1000 + 4·(pending input)`, a script of 1001 trivial ops on an idle
+connection exhausts it.  (A limit of the harness scripts, not of the Rust: the `_partial` form
+`handlerPoll_terminates` covers every script whose cost is below the fuel.) -/
+theorem handlerPoll_terminates_full_false : ¬ handlerPoll_terminates_full := by
+  intro h
+  have key : ∀ (n : Nat) (r : AReq) (e : Env), ∃ r' h' e',
+      handlerPoll n r { ops := List.replicate (n + 1) (.consume 0) } e =
+        (r', h', e', .panic "model: handler fuel exhausted") := by
+    intro n
+    induction n with
+    | zero => intro r e; exact ⟨_, _, _, rfl⟩
+    | succ k ih =>
+      intro r e
+      obtain ⟨r', h', e', hk⟩ := ih { r with sp := r.sp.consumeStream 0 } e
+      exact ⟨r', h', e', by rw [List.replicate_succ]; simp only [handlerPoll]; exact hk⟩
+  obtain ⟨r', h', e', hp⟩ := key 1000 exAReq { tr := exTrEof }
+  exact h exAReq { ops := List.replicate 1001 (.consume 0) } { tr := exTrEof } r' h' e' _ hp (by decide)
+
+/-- the `_partial` form: scripts without `readAll` whose cost is below the fuel -/
+theorem handlerPoll_terminates_partial (fuel : Nat) (r : AReq) (h : HState) (e : Env)
+    {r' : AReq} {h' : HState} {e' : Env} {s : String}
+    (hp : handlerPoll fuel r h e = (r', h', e', .panic s)) (hn : noReadAll h.ops)
+    (hf : scriptCost h < fuel) : RealSite s ∧ s ∉ fuelMsgs :=
+  handlerPoll_terminates fuel r h e hp hn hf
+
 end Fcgi.C12
